@@ -1015,3 +1015,26 @@ Proof.
   - destruct (find (key_eqb (c_svlan c) (c_sel c)) seen); [discriminate|]. intros H. right. eapply IH; exact H.
   - intros H; inversion H; subst. left; reflexivity.
 Qed.
+
+(* ---------- which defect is reported is free: report-first and report-all reject the same configurations ---------- *)
+Lemma problems_aux_nil_iff its : forall seen, problems_aux seen its = [] <-> strict_aux seen its = VOk.
+Proof.
+  induction its as [|[c|n i w] its IH]; intros seen; cbn [problems_aux strict_aux].
+  - split; reflexivity.
+  - destruct (find (key_eqb (c_svlan c) (c_sel c)) seen); [split; discriminate|apply IH].
+  - split; discriminate.
+Qed.
+
+Lemma problems_nil_iff cfg : all_problems cfg = [] <-> validate_strict cfg = VOk.
+Proof. apply problems_aux_nil_iff. Qed.
+
+Lemma problems_accepts_iff cfg : all_problems cfg = [] <-> all_parse cfg /\ NoDup (map key (claims cfg)).
+Proof. rewrite problems_nil_iff. apply strict_accepts_iff. Qed.
+
+(* the first reported defect of the report-first policy is the head of the report-all list *)
+Lemma problems_aux_head its : forall seen,
+  strict_aux seen its = match problems_aux seen its with [] => VOk | v :: _ => v end.
+Proof.
+  induction its as [|[c|n i w] its IH]; intros seen; cbn [problems_aux strict_aux]; [reflexivity| |reflexivity].
+  destruct (find (key_eqb (c_svlan c) (c_sel c)) seen); [reflexivity|apply IH].
+Qed.
